@@ -211,6 +211,122 @@ class Body:
                 dq.append(v)
         return seen
 
+    def reachable_flags(self, start=0, removed_nodes=(), removed_edges=(), init=None, max_states=200000):
+        """Reachability on the product of the CFG with the known constant values of bool locals and bool tuple
+        fields (constant propagation through moves, tuple construction/destructuring and `!`): correlated branches on
+        a flag assigned constants on different arms do not create infeasible paths. Sound: unknown values follow all
+        arms. Returns the set of reachable blocks."""
+        rn = set(removed_nodes)
+        re_ = set(removed_edges)
+        starts = [start] if isinstance(start, int) else list(start)
+        tracked = set()
+        for i, l in enumerate(self.locals):
+            t = l["ty"]
+            if t == "bool" or (t.startswith("(") and "bool" in t):
+                tracked.add(i)
+        # a flag whose address is taken mutably may change behind our back: do not track it
+        for blk in self.blocks:
+            for stmt in blk["stmts"]:
+                if stmt["s"] == "assign" and stmt["rv"]["k"] in ("ref", "rawptr") and stmt["rv"].get("bk") == "mut":
+                    tracked.discard(stmt["rv"]["place"]["l"])
+        seen = set()
+        from collections import deque as _dq
+        dq = _dq()
+        for s0 in starts:
+            if s0 in rn:
+                continue
+            st = (s0, frozenset((init or {}).items()))
+            seen.add(st)
+            dq.append(st)
+        blocks_seen = set()
+        while dq:
+            bb, fz = dq.popleft()
+            blocks_seen.add(bb)
+            if len(seen) > max_states:
+                # give up precision, stay sound
+                return self.reachable(start, removed_nodes, removed_edges)
+            facts = dict(fz)
+            blk = self.blocks[bb]
+            for stmt in blk["stmts"]:
+                if stmt["s"] != "assign":
+                    continue
+                lhs = stmt["lhs"]
+                L = lhs["l"]
+                if L not in tracked:
+                    continue
+                rv = stmt["rv"]
+                if lhs["p"]:
+                    # field write `_t.1 = ..`
+                    if len(lhs["p"]) == 1 and isinstance(lhs["p"][0], dict) and "f" in lhs["p"][0]:
+                        key = (L, lhs["p"][0]["f"])
+                        facts.pop(key, None)
+                        if rv["k"] == "use":
+                            c = op_const(rv["op"])
+                            if c is not None and "bool" in c:
+                                facts[key] = c["bool"]
+                    else:
+                        for k in [k for k in facts if k[0] == L]:
+                            facts.pop(k)
+                    continue
+                for k in [k for k in facts if k[0] == L]:
+                    facts.pop(k)
+                if rv["k"] == "use":
+                    c = op_const(rv["op"])
+                    if c is not None:
+                        if "bool" in c:
+                            facts[(L,)] = c["bool"]
+                    else:
+                        pl = op_place(rv["op"])
+                        if pl is not None:
+                            M = pl["l"]
+                            if not pl["p"]:
+                                for k, v in list(facts.items()):
+                                    if k[0] == M:
+                                        facts[(L,) + k[1:]] = v
+                            elif len(pl["p"]) == 1 and isinstance(pl["p"][0], dict) and "f" in pl["p"][0]:
+                                v = facts.get((M, pl["p"][0]["f"]))
+                                if v is not None:
+                                    facts[(L,)] = v
+                elif rv["k"] == "agg" and rv.get("agg") == "tuple":
+                    for i, o in enumerate(rv["ops"]):
+                        c = op_const(o)
+                        if c is not None and "bool" in c:
+                            facts[(L, i)] = c["bool"]
+                        else:
+                            ol = op_local(o)
+                            if ol is not None and not op_place(o)["p"] and (ol,) in facts:
+                                facts[(L, i)] = facts[(ol,)]
+                elif rv["k"] == "unop" and rv["op"] == "Not":
+                    ol = op_local(rv["a"])
+                    if ol is not None and (ol,) in facts:
+                        facts[(L,)] = not facts[(ol,)]
+            t = blk["term"]
+            succs = self.succ[bb]
+            if t["t"] == "switch":
+                dl = op_local(t["discr"])
+                if dl is not None and (dl,) in facts and self.locals[dl]["ty"] == "bool":
+                    val = 1 if facts[(dl,)] else 0
+                    nxt = t["otherwise"]
+                    for v, tg in t["arms"]:
+                        if v == val:
+                            nxt = tg
+                    succs = [nxt] if nxt in self.succ[bb] else succs
+            elif t["t"] == "call":
+                d = t.get("dest")
+                if d is not None and d["l"] in tracked:
+                    for k in [k for k in facts if k[0] == d["l"]]:
+                        facts.pop(k)
+                # a `&mut flag` passed to a call could change it: drop facts of locals whose address was taken mutably
+            nf = frozenset(facts.items())
+            for v in succs:
+                if v in rn or (bb, v) in re_:
+                    continue
+                st = (v, nf)
+                if st not in seen:
+                    seen.add(st)
+                    dq.append(st)
+        return blocks_seen
+
     def reachable_after(self, bb, removed_nodes=(), removed_edges=()):
         """blocks reachable strictly after executing block `bb` (bb itself only if on a cycle)"""
         rn = set(removed_nodes)
